@@ -519,7 +519,20 @@ class Summary:
         out = []
         for e in self.of("return"):
             out += _split_ite(e)
-        return out
+        # the same value returned outside any loop / handler on two paths is one return under the disjunction of the paths
+        # (`if not xs: return r` in front of a loop over xs that ends in `return r`)
+        merged = []
+        for e in out:
+            prev = next((m for m in merged if m.term == e.term and not m.loops and not e.loops and not m.in_handler and not e.in_handler
+                         and m.handlers == e.handlers), None)
+            if prev is not None and prev.term[0] != "ite":
+                lv = OR(prev.live, e.live)
+                if lv == TRUE or len(conjuncts(lv)) <= 1 and lv[0] != "or":
+                    i = merged.index(prev)
+                    merged[i] = Event("return", lv, e.term, e.node, e.loops, e.idx, e.handlers, e.in_handler)
+                    continue
+            merged.append(e)
+        return merged
 
     @property
     def raw_returns(self):
